@@ -204,6 +204,20 @@ class Tree:
             return nd["v"]
         return None
 
+    def float_val(self, n):
+        """value of a floating literal (possibly negated); integer constants are returned as they are"""
+        n = self.strip(n)
+        nd = self.nodes[n]
+        if nd["k"] == "flt" and nd.get("s"):
+            try:
+                return float(nd["s"])
+            except ValueError:
+                return None
+        if nd["k"] == "un" and nd.get("o") == "-":
+            v = self.float_val(nd["c"][0])
+            return -v if v is not None else None
+        return self.const_val(n)
+
 
 class Block:
     __slots__ = ("id", "elems", "succs", "succs_all", "term", "cond", "lk", "ln",
